@@ -10,7 +10,7 @@ from ..model import AnalysisError, attr_chain, is_self_attr, norm, short, stores
 from ..pmodel import ParserModel
 from ..report import Ctx
 from ..vmodel import VisitorModel
-from .. import loops
+from .. import loops, scopewalk
 from .c15 import audit
 
 LEVEL = "ownership / liveness / shape rules: nothing survives from one declaration to the next; scope composition in the simple visitor"
@@ -106,74 +106,29 @@ def run(ctx: Ctx) -> None:
                    msg=f"`{v}` given to {c.func.id}(...) can keep its value from the previous iteration of the loop: a flag set for one element sticks to the following ones", node=c, mod=mod)
 
     # ---------------------------------------------------------------- R12.4
-    ctx.rule("R12.4", "on_namespace_start: look up, create only when missing (same key, same parent), descend every iteration, start at the parent scope, bind the innermost", minimum=5)
+    ctx.rule("R12.4", "on_namespace_start over a family of scope trees: every name component is looked up in the scope reached so far, reused when present, created under its own name "
+             "when missing; the walk starts at the enclosing scope and the block is bound to the innermost scope", minimum=5)
     sm = ctx.repo.mod("simple")
     fn = sm.func("SimpleCxxVisitor.on_namespace_start")
-    st_param = fn.args.args[1].arg
-    scfg = CFG(fn)
-    srd = reaching_defs(scfg)
-    loops_ = [n for n in scfg.nodes if n.kind == "test" and isinstance(n.loop, ast.For)]
-    if len(loops_) != 1:
-        raise AnalysisError("on_namespace_start: expected one for-loop over the names")
-    lh = loops_[0]
-    lvar = lh.loop.target.id if isinstance(lh.loop.target, ast.Name) else None
-    gets = [n for n in scfg.nodes if n.kind == "stmt" and isinstance(n.stmt, ast.Assign) and isinstance(n.stmt.value, ast.Call) and isinstance(n.stmt.value.func, ast.Attribute) and n.stmt.value.func.attr == "get"
-            and norm(n.stmt.value.func.value).endswith(".namespaces")]
-    ns_alias = {t.id for x in ast.walk(fn) if isinstance(x, ast.Assign) and norm(x.value).endswith(".namespaces") for t in x.targets if isinstance(t, ast.Name)}
-    other_idiom = any((isinstance(x, ast.Subscript) and isinstance(x.ctx, ast.Load) and (norm(x.value).endswith(".namespaces") or (isinstance(x.value, ast.Name) and x.value.id in ns_alias))) or
-                      (isinstance(x, ast.Call) and isinstance(x.func, ast.Attribute) and x.func.attr in ("setdefault", "__getitem__") and norm(x.func.value).endswith(".namespaces")) or
-                      (isinstance(x, ast.Compare) and any(isinstance(o, (ast.In, ast.NotIn)) for o in x.ops) and any(norm(c_).endswith(".namespaces") for c_ in x.comparators))
-                      for x in ast.walk(fn))
-    if not gets and other_idiom:
-        # another lookup idiom (subscript + KeyError, setdefault, ...): not decided here rather than guessed at
-        raise AnalysisError("on_namespace_start looks child scopes up in a way this rule does not model (expected `<parent>.namespaces.get(name)`)")
-    ok = len(gets) == 1 and lvar is not None
-    ctx.ob("R12.4", "simple:SimpleCxxVisitor.on_namespace_start|lookup by name", ok and norm(gets[0].stmt.value.args[0]) == lvar if ok else False,
-           msg="the child scope is not looked up by the namespace name in the current parent's `namespaces`", node=fn, mod=sm)
-    if ok:
-        g = gets[0]
-        nsv = g.stmt.targets[0].id
-        parent_var = attr_chain(g.stmt.value.func.value)[0]
-        creates = [n for n in scfg.nodes if n.kind == "stmt" and isinstance(n.stmt, ast.Assign) and isinstance(n.stmt.value, ast.Call) and norm(n.stmt.value.func) == "NamespaceScope" and id(n.stmt) in {id(x) for x in ast.walk(lh.loop)}]
-        inserts = [n for n in scfg.nodes if n.kind == "stmt" and isinstance(n.stmt, ast.Assign) and isinstance(n.stmt.targets[0], ast.Subscript) and norm(n.stmt.targets[0].value) == f"{parent_var}.namespaces"]
-        good = len(creates) == 1 and len(inserts) == 1
-        why = []
-        if good:
-            c, i = creates[0], inserts[0]
-            # created only where the lookup returned None
-            none_tests = [scfg.nodes[k] for k in scfg.dominators()[c.id] if scfg.nodes[k].kind == "test" and scfg.nodes[k].cond is not None and norm(scfg.nodes[k].cond) == f"{nsv} is None"]
-            if not none_tests:
-                good = False
-                why.append("a scope is created without the lookup having failed: re-opening a namespace starts a second scope")
-            if norm(c.stmt.value.args[0]) != lvar if c.stmt.value.args else True:
-                good = False
-                why.append("the new scope is not named after the namespace component")
-            if norm(i.stmt.targets[0].slice) != lvar or norm(i.stmt.value) != c.stmt.targets[0].id or not scfg.dominates(c, i):
-                good = False
-                why.append("the new scope is not inserted under its own name")
-        else:
-            why.append("expected exactly one creation and one insertion")
-        ctx.ob("R12.4", "simple:SimpleCxxVisitor.on_namespace_start|create only when missing, under the same key", good, msg="; ".join(why), node=fn, mod=sm)
-        # descend on every iteration: `parent = ns` on every cycle of the loop
-        desc = [n for n in scfg.nodes if n.kind == "stmt" and isinstance(n.stmt, ast.Assign) and any(isinstance(t, ast.Name) and t.id == parent_var for t in n.stmt.targets) and isinstance(n.stmt.value, ast.Name) and n.stmt.value.id == nsv
-                and id(n.stmt) in {id(x) for x in ast.walk(lh.loop)}]
-        good = bool(desc) and not scfg.paths_avoiding(lh, lh, lambda x: x in desc)
-        ctx.ob("R12.4", "simple:SimpleCxxVisitor.on_namespace_start|descend into the found-or-created scope on every iteration", good,
-               msg=f"some iteration of the name loop does not move `{parent_var}` to the scope it found or created: 'namespace a::b' places b beside a when a already exists", node=fn, mod=sm)
-        # the walk starts at the parent state's scope, and nothing else redefines the parent variable
-        pdefs = [scfg.nodes[k] for k in srd.get(g.id, {}).get(parent_var, ())]
-        init_ok = True
-        for d in pdefs:
-            if d in desc:
-                continue
-            if not (d.kind == "stmt" and isinstance(d.stmt, ast.Assign) and norm(d.stmt.value) == f"{st_param}.parent.user_data"):
-                init_ok = False
-        ctx.ob("R12.4", "simple:SimpleCxxVisitor.on_namespace_start|walk starts at the enclosing scope", init_ok and bool(pdefs),
-               msg=f"`{parent_var}` may start somewhere other than {st_param}.parent.user_data (e.g. the global scope): a namespace nested in another is filed under the wrong parent", node=fn, mod=sm)
-        binds = [n for n in scfg.nodes if n.kind == "stmt" and isinstance(n.stmt, ast.Assign) and attr_chain(n.stmt.targets[0]) == (st_param, "user_data")]
-        # the innermost scope is the lookup variable or, since every iteration descends into it, the cursor
-        good = len(binds) == 1 and isinstance(binds[0].stmt.value, ast.Name) and binds[0].stmt.value.id in (nsv, parent_var) and not scfg.paths_avoiding(scfg.entry, scfg.exit, lambda x: x is binds[0])
-        ctx.ob("R12.4", "simple:SimpleCxxVisitor.on_namespace_start|state bound to the innermost scope", good, msg="state.user_data is not the innermost found-or-created scope on every path", node=fn, mod=sm)
+    vis_ = sm.cls("SimpleCxxVisitor")
+    vm_names = {f.name for f in vis_.body if isinstance(f, ast.FunctionDef)}
+    self_reads = sorted({x.attr for x in ast.walk(fn) if isinstance(x, ast.Attribute) and isinstance(x.value, ast.Name) and x.value.id == fn.args.args[0].arg and x.attr not in vm_names})
+    parts = [("lookup by name", "reused_ok", "a name component that already exists in the scope reached so far does not resolve to that scope: re-opening a namespace starts a second scope"),
+             ("create only when missing, under the same key", "created_ok", "a missing name component is not created exactly once, under its own name, in the scope reached so far"),
+             ("descend into the found-or-created scope on every iteration", "descend_ok", "a later name component is looked up beside an earlier one instead of inside it: 'namespace a::b' places b beside a"),
+             ("walk starts at the enclosing scope", "start_ok", "the first name component is not looked up in the scope of the enclosing block (state.parent.user_data): a namespace nested in another is filed under the wrong parent"),
+             ("state bound to the innermost scope", "bound_ok", "state.user_data is not the scope of the last name component")]
+    if self_reads:
+        # which scope is chosen depends on visitor-level state: reported below; the tree interpretation has no model of that state
+        for title, _, _ in parts:
+            ctx.ob("R12.4", f"simple:SimpleCxxVisitor.on_namespace_start|{title}", True, node=fn, mod=sm, nontrivial=False, detail="not evaluated: the method consults visitor-level state (reported by the next obligation)")
+    else:
+        outs = scopewalk.outcomes(sm)
+        for title, field_, why in parts:
+            bad = [o for o in outs if not getattr(o, field_)]
+            ctx.ob("R12.4", f"simple:SimpleCxxVisitor.on_namespace_start|{title}", not bad,
+                   msg=(f"{why} -- e.g. namespace {'::'.join(bad[0].names) or '<anonymous>'} {{}} where the enclosing scope holds {bad[0].pre}: {bad[0].note}" if bad else ""), node=fn, mod=sm,
+                   detail=f"{len(outs)} scope trees interpreted")
 
     # the scope a block is bound to is a function of the parent block's scope and the block's own names: a start callback
     # that consults anything kept on the visitor (a cache of scopes, a shared anonymous scope) makes the result depend on
